@@ -158,6 +158,10 @@ roothash.executorCommit / slashing / liveness, vault.executeAction/authorizeActi
 staking.changeParameters: see the per-site comments in `expected`.
 -/
 def expected : List (String × List String) := [
+  -- authentication: every check (reserved address, nonce, balance ≥ fee + minimum) precedes the
+  -- single write (fee move + nonce increment + SetAccount): "rejected at authentication changes nothing"
+  ("staking_state_AuthenticateAndPayFees", []),
+  ("staking_PostExecuteTx", []),
   ("staking_ExecuteTx", []),
   ("registry_ExecuteTx",
     ["transactions.go:registerNode:registry.ErrInvalidArgument",
